@@ -266,6 +266,21 @@ class Lockstep:
                         await self.gateway.__aexit__(_TFE, lost, None)
                     else:
                         await self.gateway.__aexit__(None, None, None)
+                    if len(op) > 1 and op[1] in ("connect-refused", "connect-cancelled"):
+                        # the first attempt to come back fails (gateway not reachable yet / the application gives up), the
+                        # next one succeeds: what the controller knows (version, registry, buffer) is as before
+                        from aiomysensors.exceptions import TransportError as _TE
+                        import asyncio as _asyncio
+
+                        self.transport.connect_error = _TE("refused") if op[1] == "connect-refused" else _asyncio.CancelledError()
+                        try:
+                            await self.gateway.__aenter__()
+                        except (_TE, _asyncio.CancelledError):
+                            self.stats["reenter:failed-attempt"] += 1
+                        else:
+                            self.bad("C16", "connect-failure-swallowed", "entering with a failing connect returned")
+                        finally:
+                            self.transport.connect_error = None
                     await self.gateway.__aenter__()
                 except Exception as exc:  # noqa: BLE001
                     self.bad("C16", "reenter-raised", f"re-entering the context raised {type(exc).__name__}")
